@@ -65,6 +65,10 @@ def cases(tier, rng):
         for _ in range(2 if tier == "quick" else 4):
             es = [rng.choice(el) for _ in range(n)]
             longs.append((lst(es), {})); longs.append((lst(es, T), chain)); longs.append((lst(es[:n // 2], T), {4: lst(es[n // 2:])}))
+    # a list spread over MANY bound tail variables (67, 130 links), and over few whose ids collide modulo 64 / 256
+    from gen.universe import tail_chain
+    for ids, last in (([4, 68, 132], None), ([5, 261, 517, 69], lst([c, b])), (list(range(30, 97)), None), (list(range(30, 160)), lst([q])), ([9, 65545, 73], None)):
+        longs.append(tail_chain(ids, el, last))
     for l, d in longs:
         ss = ss_from(d)
         out.append(("(bip %s (%s %s) %s)" % (S("count"), l, OUT, ss), "count"))
@@ -186,7 +190,7 @@ def relations(cases, impl):
             keep = [x for x, m in zip(xs, ms) if m == (tag == "include")]
             exp = pyspec.make_list(keep)
             if p[0] != "some" or len(p[1]) <= 20 or p[1][20] != exp: why = "%s does not return exactly the elements that %s the pattern" % (tag, "match" if tag == "include" else "do not match")
-            elif p[1][:len(ent0)] != ent0 or any(e is not None for k, e in enumerate(p[1]) if k >= len(ent0) and k != 20):
+            elif {k: e for k, e in enumerate(p[1]) if e is not None and k != 20} != {k: e for k, e in enumerate(ent0) if e is not None}:
                 why = "%s bound something besides its output argument" % tag
         elif tag == "functor":
             if len(args) not in (2, 3): continue
